@@ -244,6 +244,7 @@ class Interp:
         self.always_sdict = False
         self.loop_invariants = {}  # (qualified name, loop ordinal) -> invariant object
         self.trace_hook = None
+        self.cache_key_types = {}
 
     def reset_path(self):
         """ per-path state (the function cache and the source database persist across paths) """
@@ -325,6 +326,13 @@ class Interp:
         # lru_cache wrappers around repository functions are looked through (sound by C16)
         w = getattr(fn, '__wrapped__', None)
         if w is not None and type(fn).__name__ == '_lru_cache_wrapper' and self.is_repo_function(w):
+            # record the scalar types that make up the cache key (C16, key adequacy: True == 1 and 0 == False collide)
+            try:
+                qn = self.qname(w)
+                for i, a_ in enumerate(args):
+                    self.cache_key_types.setdefault(f"{qn}#arg{i}", set()).update(_scalar_kinds(a_))
+            except Exception:
+                pass
             return self.call(w, args, kwargs)
         m = self.models.get(_ident(fn))
         if m is not None:
@@ -1304,6 +1312,32 @@ def _find_in_mro(cls, name):
                 return None
             return v
     return None
+
+
+def _scalar_kinds(x, depth=0):
+    """ kinds of hashable scalars inside a cache-key component: 'bool', 'int', 'float', 'str', 'none', 'type', 'other' """
+    if isinstance(x, Sym):
+        return {x.pytype.__name__}
+    if isinstance(x, bool):
+        return {'bool'}
+    if isinstance(x, int):
+        return {'int'}
+    if isinstance(x, float):
+        return {'float'}
+    if isinstance(x, str):
+        return {'str'}
+    if x is None:
+        return {'none'}
+    if isinstance(x, type):
+        return {'type'}
+    if isinstance(x, tuple) and depth < 6:
+        if hasattr(x, '_fields'):
+            return {'record'}          # NamedTuples hold heterogeneous fields by design (e.g. _struct.diag is a bool)
+        out = set()
+        for e in x:
+            out |= _scalar_kinds(e, depth + 1)
+        return out
+    return {'other'}
 
 
 def _concrete_index_arrays(idx):
